@@ -984,3 +984,11 @@ pub struct TCoefficient {
     /// Sorenson Spark version 1 bitstreams, `LEVEL` is either 7 or 11 bits.
     pub level: i16,
 }
+
+#[cfg(feature = "verif-hooks")]
+impl HalfPel {
+    /// Verification hook: the raw half-sample count.
+    pub fn verif_raw(self) -> i16 {
+        self.0
+    }
+}
